@@ -78,4 +78,11 @@ theorem leaf_encoding_lookup (l : ELeaf) (p : EPos) (s : Option EPos) (c : Bool)
   subst h1 h2' h3' h4'
   exact ⟨e, hr, by simpa [rowOk] using hok⟩
 
+/-- **the Literal arm**: for every text and either casing the model prints what the source pushes
+    before the escaped text, the escaped text, and what the source pushes after it (that `escStr` is
+    `regex::escape` is the correspondence's to establish, on every generated literal) -/
+theorem literal_encoding_is_source (c : Bool) (sup : Option Pos) (p : Pos) (sp : Span) (s : Str) (ci : Bool) :
+    (encodeTok c sup p (.lit sp s ci)).print = Generated.literalBefore ci ++ escStr s ++ Generated.literalAfter ci := by
+  cases ci <;> simp [encodeTok, Re.print, Generated.literalBefore, Generated.literalAfter]
+
 end Wax
